@@ -167,17 +167,35 @@ def shrink(m, case, cls, budget):
 
 
 def match_findings(m, case, result, findings):
-    out = []
-    f = getattr(m, "finding_matches", None)
+    """A finding matches a violating run iff its precondition holds on the case and the ABLATED
+    case (the finding's trigger removed) runs fully clean.  If no single ablation cleans the run
+    but the composition of all applicable ones does, the run contains exactly those known problems
+    and nothing else, and all of them are reported as matched."""
+    table = getattr(m, "FINDING_ABLATIONS", {})
+    applicable = []
     for fd in findings:
         if fd.get("class") not in (None, result.get("cls")):
             continue
+        ent = table.get(fd["id"])
+        if ent is None:
+            continue
+        pre, abl = ent
         try:
-            if f is not None and f(case, result, fd):
-                out.append(fd["id"])
+            if pre(case, result):
+                applicable.append((fd["id"], abl))
         except Exception:  # noqa: BLE001
             traceback.print_exc()
-    return out
+    out = []
+    for fid, abl in applicable:
+        if exec_case(m, abl(case))["status"] == "ok":
+            out.append(fid)
+    if not out and len(applicable) > 1:
+        c = case
+        for _, abl in applicable:
+            c = abl(c)
+        if exec_case(m, c)["status"] == "ok":
+            out = [fid for fid, _ in applicable]
+    return sorted(set(out))
 
 
 if __name__ == "__main__":
